@@ -4,6 +4,8 @@ import PlinioVerif.Model.PIT.TimeMask
 
 `alpha C=<n> v=[q,…]`                          -> `theta=[…] bin=[…] opt=<n> eff=<q>`
 `tmask K=<n> d0=<n> beta=[…] gamma=[…]`        -> `L=… tb=[…] tg=[…] mask=[…] k=… d=… pad=… kept=[…] keffc=<q> aligned=<0|1>`
+`conv K= d0= s= T= cout= beta=[…] gamma=[…] w=[[taps of (co,ci)],…] b=[…] x=[[samples of ci],…]`
+                                               -> `masked=[[…],…] exported=[[…],…]` (the two sides of `conv1d_layer_masked_eq_exported`)
 -/
 open PlinioVerif PlinioVerif.Proto PlinioVerif.PIT
 
@@ -31,6 +33,22 @@ def handle (line : String) : String :=
       let tg := (List.range K).map (thetaGamma K L γ)
       s!"L={L} tb={showList showRat tb} tg={showList showRat tg} mask={showList showBool m} k={kernelSizeOpt K β γ} d={dilationOpt K d0 γ} pad={padOpt K d0 β γ} kept={showList toString (keptTaps m)} keffc={showRat (kEff false K β γ)} aligned={showBool (exportAligned K d0 β γ)}"
     | _, _, _, _ => "bad-request"
+  | some "conv" =>
+    match (field? toks "K").bind parseNat?, (field? toks "d0").bind parseNat?, (field? toks "s").bind parseNat?,
+          (field? toks "T").bind parseNat?, (field? toks "cout").bind parseNat?,
+          (field? toks "beta").bind (parseList? parseRat?), (field? toks "gamma").bind (parseList? parseRat?),
+          (field? toks "w").bind (parseList2? parseInt?), (field? toks "b").bind (parseList? parseInt?),
+          (field? toks "x").bind (parseList2? parseInt?) with
+    | some K, some d0, some st, some T, some cout, some bt, some g, some w, some b, some x =>
+      if bt.length ≠ K || g.length ≠ gammaLen K || K = 0 then "bad-request" else
+      let β := ofList bt
+      let γ := ofList g
+      let cin := x.length
+      let wf := fun co ci j => ((w.getD (co * cin + ci) []).getD j 0)
+      let bf := fun co => b.getD co 0
+      let sh := fun (r : List (List Int)) => showList (showList toString) r
+      s!"masked={sh (convLayer (maskedConvAt K d0 β γ) cout wf bf x st T)} exported={sh (convLayer (exportedConvAt K d0 β γ) cout wf bf x st T)}"
+    | _, _, _, _, _, _, _, _, _, _ => "bad-request"
   | _ => "bad-request"
 
 def main : IO Unit := runDriver handle
